@@ -777,6 +777,11 @@ func (x *Run) convert(st *State, v Val, from, to types.Type) Val {
 	case fs == SStr:
 		f := x.d.fun("str2bytes."+sortMangle(ts), []Sort{SStr}, ts)
 		r := Val{T: app(f, v.T), S: ts, Ty: to}
+		// the conversion is injective: converting back gives the string again
+		if x.d.slices[ts] != "" {
+			g := x.d.fun("bytes2str."+sortMangle(ts), []Sort{ts}, SStr)
+			st.assume(eq(app(g, r.T), v.T))
+		}
 		if x.d.slices[ts] != "" {
 			st.assume(eq(x.sliceLen(r), app("strlen", v.T)))
 		}
